@@ -160,6 +160,20 @@ func checkC08(c *StabilityCase) error {
 	if err := verify("after the stream ended"); err != nil {
 		return err
 	}
+	// (3a) a second attempt on the SAME streamer, from the start again: whatever the library recycles
+	// between attempts must not reach into transactions it handed out earlier
+	ss.s.SetBinlogPosition(gobinlog.Position{Filename: start.File, Offset: start.Off})
+	st1b := ss.run(attempt{l: l})
+	st1b.drainLib()
+	if err := st1b.panicErr(); err != nil {
+		return err
+	}
+	if err := compareTxs(st1b.got, exp, true); err != nil {
+		return fmt.Errorf("second attempt on the same streamer: %v", err)
+	}
+	if err := verify("after a second attempt on the same streamer"); err != nil {
+		return err
+	}
 	// (3) a second, unrelated stream in the same process (new connection, new buffers)
 	ss2, err := newSession(c.E.H.Tables, 98, start)
 	if err == nil {
